@@ -66,6 +66,17 @@ CHECKS = {
              "handle_message never raises, the printed line parses back to the id. A request to notifications/initialized is known finding F-C08-1.",
         note="Trusts: handler fault matrix is representative; the handler keeps no cross-request state, so schedules add little (said in DESIGN.md).",
         technique=TECH + "; handler fault injection (buggify), conservation oracle over the dispatch history"),
+    "C11": dict(
+        level="fault_enumeration", ref="DESIGN.md section 5 C11",
+        text="The real http_client()/StreamableHTTPTransport and the real httpx client layer run on SimHTTPTransport. The per-POST behaviour "
+             "matrix {200/202/204/307/308/4xx/5xx} x {json / event-stream / other / absent content type} x {13 body kinds} x {SSE encodings: "
+             "event field, space after colon, LF/CRLF, comments, multi-line data, id field, final blank line, foreign event types} x {connect / "
+             "timeout / protocol / mid-body failures} x {session header histories} is swept systematically for a request and a notification, each "
+             "followed by a plain request (does the sender loop survive?), plus seeded sequences of 1..4 (thorough 6) messages. Oracle: independent "
+             "WHATWG event-stream decoder + JSON-RPC grammar; per POST exactly the server's messages, or exactly one terminal message with the "
+             "request's id (value and type), nothing for a notification, nothing invented; session header = most recent id issued on a 2xx.",
+        note="Trusts: the fake raises httpx timeouts at the configured instant (httpcore bypassed); connection pooling not simulated.",
+        technique=TECH + "; systematic HTTP fault enumeration at the httpx transport seam + seeded fault sequences, reference-decoder oracle"),
     "C13": dict(
         level="exploration", ref="DESIGN.md section 5 C13",
         text="The real stdio reader + BatchProcessor run on a FakeProcess; the version comes from a simulated handshake or the setter, drawn "
